@@ -132,8 +132,21 @@ bool Subprocess::Start(SubprocessSet* set, const string& command) {
   const char* spawned_args[] = { "/bin/sh", "-c", command.c_str(), NULL };
   err = posix_spawn(&pid_, "/bin/sh", &action, &attr,
         const_cast<char**>(spawned_args), environ);
-  if (err != 0)
-    Fatal("posix_spawn: %s", strerror(err));
+  if (err != 0) {
+    // A command that cannot be started (e.g. E2BIG for an over-long command
+    // line, EAGAIN) fails the build like any other start failure; exiting on
+    // the spot would orphan the running commands and keep their job slots.
+    Error("posix_spawn: %s", strerror(err));
+    pid_ = -1;
+    posix_spawnattr_destroy(&attr);
+    posix_spawn_file_actions_destroy(&action);
+    if (!use_console_) {
+      close(subproc_stdout_fd);
+      close(fd_);
+      fd_ = -1;
+    }
+    return false;
+  }
 
   err = posix_spawnattr_destroy(&attr);
   if (err != 0)
